@@ -129,7 +129,9 @@ _CONFIGS = {}
 def make_static(spec):
     """(args, kwargs) of a payload from a JSON description:
     {"int": 3} | {"big": "A"|"B"} (2000-element arrays that differ at index 1000) | {"config": n} (one Config object per n and
-    process) | {"newconfig": n} (a new Config object per call) | {"kwdict": {...}} | {"kwlist": [...]} | {"nested": [..]}"""
+    process) | {"newconfig": n} (a new Config object per call) | {"kwdict": {...}} | {"kwlist": [...]} | {"nested": [..]} |
+    {"float": x} | {"bool": b} | {"mixed": [[type, value]…]} | {"tuple": [[type, value]…]} | {"set": [..]} | {"frozenset": [..]} |
+    {"kwset": [..]} | {"nestedset": [..]}"""
     kind, val = next(iter(spec.items()))
     if kind == "int":
         return ("input0", val), {}
@@ -145,7 +147,28 @@ def make_static(spec):
         return ("input0",), {"opts": list(val)}
     if kind == "nested":
         return ("input0", [list(x) if isinstance(x, list) else x for x in val]), {}
+    # C14 (second audit): scalars of different types that compare equal (2, 2.0, True), unordered containers
+    if kind == "float":
+        return ("input0", float(val)), {}
+    if kind == "bool":
+        return ("input0", bool(val)), {}
+    if kind == "mixed":          # a list given as [["i", 2], ["f", 2.0], ["b", 1], ["s", "x"], ["n", 0]]
+        return ("input0", [_typed(t, v) for t, v in val]), {}
+    if kind == "tuple":
+        return ("input0", tuple(_typed(t, v) for t, v in val)), {}
+    if kind == "set":            # built in the listed order: the iteration order of the set is the interpreter's business
+        return ("input0", set(val)), {}
+    if kind == "frozenset":
+        return ("input0", frozenset(val)), {}
+    if kind == "kwset":
+        return ("input0",), {"params": set(val)}
+    if kind == "nestedset":
+        return ("input0", [set(val), len(val)]), {"opts": {"levels": frozenset(val)}}
     raise ValueError(spec)
+
+
+def _typed(t, v):
+    return {"i": int, "f": float, "b": bool, "s": str, "n": lambda _: None}[t](v)
 
 
 CUSTOM = {"keep": keep, "neg": neg, "affine": affine, "twice": twice, "wsum": wsum, "first": first, "minmax": minmax,
